@@ -232,6 +232,12 @@ def gen_scenario(c, i, seed, tier):
             faults.append({"kind": kind, "path": rng.choice(gen), "other": rng.choice(gen)})
         else:
             faults.append({"kind": kind, "path": rng.choice(gen), "arg": rng.randrange(1 << 30)})
+    # faults next to each other: a stale artefact and a foreign entry in the SAME directory (either may be created first,
+    # which decides the order in which tmpfs lists them)
+    for f in [x for x in faults if x["kind"] == "extra_file"]:
+        if rng.random() < 0.5:
+            fe = {"kind": "foreign", "path": os.path.join(os.path.dirname(f["path"]), rng.choice(FOREIGN_NAMES))}
+            faults.insert(rng.randrange(len(faults) + 1), fe)
     n_crash = 0 if not faults else rng.choice([0, 0, 1, 1, 1, 2, 3])
     crashes = []
     for _ in range(n_crash):
